@@ -125,6 +125,8 @@ impl RotationState {
     fn create_key() -> (EcdhPrivateKey, EcdhPublicKey) {
         let rand = SystemRandom::new();
         let private_key = EcdhPrivateKey::generate(&X25519, &rand).unwrap();
+        #[cfg(dswd_vpncloud_verif)]
+        let private_key = crate::verif::ecdh_key("rotate.ecdh", private_key);
         let public_key = Self::compute_public_key(&private_key);
         (private_key, public_key)
     }
